@@ -65,3 +65,42 @@ pub fn flip(bytes: &[u8], bit: usize) -> Vec<u8> {
     b[bit / 8] ^= 1 << (bit % 8);
     b
 }
+
+/// Structural edits of a serialised object whose layout is not known here: every position
+/// that could be a big-endian `u32` (or `u64`, or single byte) element count in front of
+/// elements of 32 / 48 / 64 / 96 bytes gets the count raised by one with a copy of the last
+/// (or first) element inserted, and lowered by one with the last element removed. Where the
+/// guess is wrong the result does not decode or decodes to something else that must not verify
+/// either; where it is right this is a well-formed object with one more / one fewer element.
+pub fn count_field_edits(bytes: &[u8]) -> Vec<(String, Vec<u8>)> {
+    let mut out = vec![];
+    for width in [1usize, 4, 8] {
+        for p in 0..bytes.len().saturating_sub(width) {
+            let v = bytes[p..p + width].iter().fold(0u64, |a, b| (a << 8) | *b as u64);
+            if v == 0 || v > 40 {
+                continue;
+            }
+            for es in [32usize, 33, 48, 64, 96] {
+                let end = p + width + v as usize * es;
+                if end > bytes.len() {
+                    continue;
+                }
+                let put = |n: u64| -> Vec<u8> { (0..width).map(|i| (n >> (8 * (width - 1 - i))) as u8).collect() };
+                // one more: copy of the last element appended
+                let mut b = bytes[..p].to_vec();
+                b.extend(put(v + 1));
+                b.extend_from_slice(&bytes[p + width..end]);
+                b.extend_from_slice(&bytes[end - es..end]);
+                b.extend_from_slice(&bytes[end..]);
+                out.push((format!("count at {p} (width {width}) + 1, element of {es} bytes appended"), b));
+                // one fewer
+                let mut b = bytes[..p].to_vec();
+                b.extend(put(v - 1));
+                b.extend_from_slice(&bytes[p + width..end - es]);
+                b.extend_from_slice(&bytes[end..]);
+                out.push((format!("count at {p} (width {width}) - 1, last element of {es} bytes removed"), b));
+            }
+        }
+    }
+    out
+}
